@@ -196,6 +196,20 @@ func replayLegacy(line []byte, a *Acc) {
 	if xerr == nil {
 		eq("j2x.JsonReaderToXmlWriter", w.String()+cls(e1), string(xdoc)+"ok")
 	}
+	if xerr == nil {
+		// a stream of two messages on a reader that only has Read: each call takes exactly one message (as the core readers do)
+		two := append(append(append([]byte{}, jdoc...), '\n'), jdoc...)
+		rd := hideByteReader{bytes.NewReader(two)}
+		r1, x1, ea := j2x.JsonReaderToXml(rd)
+		r2, x2, eb := j2x.JsonReaderToXml(rd)
+		eq("j2x.JsonReaderToXml twice on one stream of two messages", string(r1)+"|"+string(x1)+cls(ea)+"|"+strings.TrimSpace(string(r2))+"|"+string(x2)+cls(eb),
+			string(jdoc)+"|"+string(xdoc)+"ok|"+string(jdoc)+"|"+string(xdoc)+"ok")
+		rd = hideByteReader{bytes.NewReader(two)}
+		var w1, w2 bytes.Buffer
+		ea = j2x.JsonReaderToXmlWriter(rd, &w1)
+		eb = j2x.JsonReaderToXmlWriter(rd, &w2)
+		eq("j2x.JsonReaderToXmlWriter twice on one stream of two messages", w1.String()+cls(ea)+"|"+w2.String()+cls(eb), string(xdoc)+"ok|"+string(xdoc)+"ok")
+	}
 	for _, k := range l.Ks {
 		called("JsonPathsForKey")
 		ps, e := j2x.JsonPathsForKey(jdoc, k.Key)
@@ -396,6 +410,13 @@ func replayLegacy(line []byte, a *Acc) {
 			called("XmlReaderToJson")
 			xr, gj, e := x2j.XmlReaderToJson(bytes.NewReader(xdoc), safe)
 			eq(fmt.Sprintf("x2j.XmlReaderToJson(safe=%v)", safe), string(xr)+"|"+string(gj)+cls(e), string(xdoc)+"|"+string(cj)+"ok")
+			{
+				two := append(append(append([]byte{}, xdoc...), '\n'), xdoc...)
+				rd := hideByteReader{bytes.NewReader(two)}
+				_, j1, ea := x2j.XmlReaderToJson(rd, safe)
+				_, j2, eb := x2j.XmlReaderToJson(rd, safe)
+				eq(fmt.Sprintf("x2j.XmlReaderToJson twice on one stream of two messages (safe=%v)", safe), string(j1)+cls(ea)+"|"+string(j2)+cls(eb), string(cj)+"ok|"+string(cj)+"ok")
+			}
 			called("XmlReaderToJsonWriter")
 			w.Reset()
 			xr, gj, e = x2j.XmlReaderToJsonWriter(bytes.NewReader(xdoc), &w, safe)
